@@ -439,6 +439,11 @@ def oracle_mismatch(css, options):
     if imports:
         # the placeholder is a comment (invisible to the tokenizer): check its text; wrapper blocks are checked by shape only
         import urllib.parse
+        def has_path(imp):
+            f = imp[1][:1]
+            return bool(f) and (f[0][0] in ('QuotedString', 'UnquotedUrl') or (f[0][0] == 'Function' and len(f[0]) > 2))
+        if not all(has_path(i) for i in imports):
+            return None, out      # an @import without a path is not a valid import: the property says nothing about its recovery
         found = re.findall(r'/\*%s (.*?)\*/' % re.escape(options['import_sign']), out['normal'], re.S)
         if len(found) != len(imports):
             return '%d import placeholders for %d @import rules' % (len(found), len(imports)), out
